@@ -1,6 +1,7 @@
 import AlgoVerif.Proofs.C02Chain
 import AlgoVerif.Proofs.C02OA
 import AlgoVerif.Proofs.C02LinDel
+import AlgoVerif.Proofs.C03Sites
 /-!
 # C03 — every hash-table operation terminates, whatever the delete/insert churn
 
@@ -15,6 +16,13 @@ Ingredients (each a lemma with a real proof, in `Proofs/C02Num.lean` and `Proofs
 `isPrime_correct`, `smallestPrimeLargerThan_terminates` (Bertrand's postulate, Mathlib), `quad_cover`,
 `double_cover`, `h2of_coprime`, `pigeonhole`, `OA.u_lt_cover` (the bound `u ≤ (m-1)/2` that the new
 check in `Put` establishes), `OA.exists_free`.
+
+The second part ties the hypothesis `ValidOpts` to the code that *uses* the tables: `Generated/C03CallSites.lean`
+is rewritten from /repo's non-test source on every check and lists every call of the four constructors with its
+statically evaluated `HashOpts`; `C03_repo_callsites_valid` (by `decide`) says each of them satisfies exactly the
+hypothesis of the theorem of its table, so the library-internal tables (`grammar.Productions`, FIRST/FOLLOW,
+the LR and predictive parsing tables) terminate (`C03_repo_tables_terminate`).  A `HashOpts` literal outside
+`ValidOpts`, or one the translator cannot evaluate, makes this file fail to build.
 -/
 open AlgoVerif AlgoVerif.C02
 
@@ -117,6 +125,106 @@ theorem C03_double {K V σ : Type} [DecidableEq K] (hash : K → UInt64) (sh : S
           cover (st.sel b).kind (st.sel b).m ≤ (st.sel b).m :=
   C03_openAddressing .dbl hash sh hsh eqVal opts hv g ops op
 
+/-! ## every constructor call site of /repo passes valid options -/
+
+open AlgoVerif.C03 AlgoVerif.Generated in
+/-- Every call of `NewQuadraticHashTable` / `NewDoubleHashTable` / `NewLinearHashTable` / `NewChainHashTable` in the
+non-test source of /repo (the regenerated table `C03CallSites`) either passes a statically known `HashOpts` value
+that satisfies exactly the hypothesis of `C03_quadratic` / `C03_double` / `C03_linear` / `C03_chain` (`ValidFor`:
+what the constructor accepts after its own defaulting of zero fields, load-factor bounds no looser than the
+defaults), or sits in a method of the table's own struct and hands the receiver's bounds on (`Inherits`: `resize`,
+`SelectMatch`, `PartitionMatch`).  No entry is `unknown`. -/
+theorem C03_repo_callsites_valid : ∀ s ∈ C03CallSites, SiteValid s := by
+  decide
+
+open AlgoVerif.C03 AlgoVerif.Generated in
+/-- … therefore every table the library builds for itself with statically known options — `grammar.Productions`,
+the FIRST/FOLLOW tables, the LR ACTION/GOTO tables and their rows, the predictive parsing table — terminates:
+for every key type, hash function, shuffle and history the constructor accepts the options, the history reaches a
+state and any further operation returns (`Terminates`, the conclusion of the four theorems above). -/
+theorem C03_repo_tables_terminate : ∀ s ∈ C03CallSites, ∀ o, staticOpts s = some o → Terminates s.ctor o := by
+  intro s hs o ho
+  have hv : ValidFor s.ctor o := by
+    have := C03_repo_callsites_valid s hs
+    simpa [SiteValid, ho] using this
+  cases hc : s.ctor <;> rw [hc] at hv
+  · intro K V σ _ hash sh hsh eqVal g ops op
+    obtain ⟨t0, h0, st, r, h1, h2, _⟩ := C03_quadratic (K := K) (V := V) hash sh hsh eqVal o hv g ops op
+    exact ⟨t0, h0, st, r, h1, h2⟩
+  · intro K V σ _ hash sh hsh eqVal g ops op
+    obtain ⟨t0, h0, st, r, h1, h2, _⟩ := C03_double (K := K) (V := V) hash sh hsh eqVal o hv g ops op
+    exact ⟨t0, h0, st, r, h1, h2⟩
+  · intro K V σ _ hash sh hsh eqVal g ops op
+    obtain ⟨t0, h0, st, r, h1, h2, _⟩ := C03_linear (K := K) (V := V) hash sh hsh eqVal o hv g ops op
+    exact ⟨t0, h0, st, r, h1, h2⟩
+  · intro K V σ _ hash sh hsh eqVal g ops op
+    obtain ⟨t0, h0, st, r, h1, h2, _⟩ := C03_chain (K := K) (V := V) hash sh hsh eqVal o hv g ops op
+    exact ⟨t0, h0, st, r, h1, h2⟩
+
+open AlgoVerif.C03 AlgoVerif.Generated in
+/-- the sites that inherit (`SelectMatch`, `PartitionMatch`: default capacity, the receiver's bounds): whenever the
+receiver's bounds are valid — which `ValidOpts` of the receiver's own constructor call gives, the bounds never
+change afterwards — the new table is built with valid options and terminates.  (The `resize` sites are the calls
+`OA.resizeWith` / `Lin.resizeWith` / `Chain.resizeWith` of the Model and are inside the theorems above.) -/
+theorem C03_repo_inherited_tables_terminate : ∀ s ∈ C03CallSites, staticOpts s = none → s.cap = .dflt →
+    ∀ rmin rmax, ValidLF (dminOf s.ctor) (dmaxOf s.ctor) rmin rmax →
+      ValidFor s.ctor ⟨0, rmin, rmax⟩ ∧ Terminates s.ctor ⟨0, rmin, rmax⟩ := by
+  intro s _ _ _ rmin rmax hr
+  have hv := inherits_valid s.ctor rmin rmax hr
+  refine ⟨hv, ?_⟩
+  cases hc : s.ctor <;> rw [hc] at hv
+  · intro K V σ _ hash sh hsh eqVal g ops op
+    obtain ⟨t0, h0, st, r, h1, h2, _⟩ := C03_quadratic (K := K) (V := V) hash sh hsh eqVal _ hv g ops op
+    exact ⟨t0, h0, st, r, h1, h2⟩
+  · intro K V σ _ hash sh hsh eqVal g ops op
+    obtain ⟨t0, h0, st, r, h1, h2, _⟩ := C03_double (K := K) (V := V) hash sh hsh eqVal _ hv g ops op
+    exact ⟨t0, h0, st, r, h1, h2⟩
+  · intro K V σ _ hash sh hsh eqVal g ops op
+    obtain ⟨t0, h0, st, r, h1, h2, _⟩ := C03_linear (K := K) (V := V) hash sh hsh eqVal _ hv g ops op
+    exact ⟨t0, h0, st, r, h1, h2⟩
+  · intro K V σ _ hash sh hsh eqVal g ops op
+    obtain ⟨t0, h0, st, r, h1, h2, _⟩ := C03_chain (K := K) (V := V) hash sh hsh eqVal _ hv g ops op
+    exact ⟨t0, h0, st, r, h1, h2⟩
+
+open AlgoVerif.C03 AlgoVerif.Generated in
+/-- the two users the property names, by name: the tables behind `grammar.NewProductions` and behind
+`lr.NewParsingTable` (ACTION and GOTO) and the rows created by `AddACTION` / `SetGOTO` are in the table, are
+quadratic tables with static options, and terminate — these are the options the Models `C03.Productions` and
+`C03.LRTable` (corresponded with the Go code on every run) are constructed with. -/
+theorem C03_productions_and_parsing_table_terminate :
+    ∀ site ∈ [("grammar/production.go", "NewProductions", 0), ("parser/lr/parsing_table.go", "NewParsingTable", 0),
+        ("parser/lr/parsing_table.go", "NewParsingTable", 1), ("parser/lr/parsing_table.go", "ParsingTable.AddACTION", 0),
+        ("parser/lr/parsing_table.go", "ParsingTable.SetGOTO", 0)],
+      (oaSite site.1 site.2.1 site.2.2).map Prod.fst = some Kind.quad ∧
+      ∀ o, oaSite site.1 site.2.1 site.2.2 = some (.quad, o) → Terminates .quadratic o := by
+  have key : ∀ file fn idx o, oaSite file fn idx = some (.quad, o) → Terminates .quadratic o := by
+    intro file fn idx o h
+    unfold oaSite at h
+    cases hf : findSite file fn idx with
+    | none => simp [hf] at h
+    | some s =>
+      have hmem : s ∈ C03CallSites := List.mem_of_find?_eq_some hf
+      rw [hf] at h
+      cases hk : oaKind s.ctor with
+      | none => simp [hk] at h
+      | some k =>
+        cases hs : staticOpts s with
+        | none => simp [hk, hs] at h
+        | some o' =>
+          simp [hk, hs] at h
+          obtain ⟨h1, h2⟩ := h
+          have hq : s.ctor = .quadratic := by
+            cases hc : s.ctor <;> simp [oaKind, hc] at hk <;> simp_all
+          have := C03_repo_tables_terminate s hmem o' hs
+          rw [hq, h2] at this
+          exact this
+  have hsites : ∀ site ∈ [("grammar/production.go", "NewProductions", 0), ("parser/lr/parsing_table.go", "NewParsingTable", 0),
+        ("parser/lr/parsing_table.go", "NewParsingTable", 1), ("parser/lr/parsing_table.go", "ParsingTable.AddACTION", 0),
+        ("parser/lr/parsing_table.go", "ParsingTable.SetGOTO", 0)],
+      (oaSite site.1 site.2.1 site.2.2).map Prod.fst = some Kind.quad := by decide
+  intro site hm
+  exact ⟨hsites site hm, fun o h => key _ _ _ o h⟩
+
 /-! ## the hypotheses are satisfiable, on the states of the former defects -/
 section NonVacuity
 
@@ -153,6 +261,42 @@ example : (match (OA.new .quad {} : Outcome (OATable Int Int)) with
       | some st => (st.a.m, st.a.n, st.a.u, OA.probesGet st.a (mix 5) 1000 st.a.m 0)
       | none => (0, 0, 0, none)
     | _ => (0, 0, 0, none)) = (67, 16, 16, some 17) := by
+  decide
+
+open AlgoVerif.C03 AlgoVerif.Generated in
+/-- the table of call sites is not empty, it contains both kinds of entry, and the validity predicate is not
+trivially true: the options of the seeded changes C03-n2 / C03-n3 (`MaxLoadFactor` 0.6 resp. 0.75 at an external
+site) and a site the translator could not evaluate are rejected. -/
+example : C03CallSites.length ≥ 27 ∧ (∃ s ∈ C03CallSites, (staticOpts s).isSome) ∧ (∃ s ∈ C03CallSites, Inherits s) ∧
+    ¬ SiteValid ⟨"parser/lr/parsing_table.go", "NewParsingTable", 0, .quadratic, false, .dflt, .dflt, .lit 3 5⟩ ∧
+    ¬ SiteValid ⟨"grammar/production.go", "NewProductions", 0, .quadratic, false, .dflt, .dflt, .lit 3 4⟩ ∧
+    ¬ SiteValid ⟨"x.go", "f", 0, .quadratic, false, .dflt, .dflt, .unknown⟩ ∧
+    ¬ SiteValid ⟨"x.go", "f", 0, .quadratic, false, .dflt, .recvMin, .recvMax⟩ ∧
+    SiteValid ⟨"x.go", "f", 0, .double, false, .lit 61, .lit 1 4, .lit 3 8⟩ := by
+  decide
+
+open AlgoVerif.C03 in
+/-- bounds a receiver may have: the defaults of the quadratic table -/
+example : ValidLF (dminOf .quadratic) (dmaxOf .quadratic) ⟨1, 8⟩ ⟨1, 2⟩ := by decide
+
+/-- the bytes of the non-terminal name `N<n>` -/
+def ntName (n : Nat) : List UInt8 := 78 :: (Nat.toDigits 10 n).map fun c => UInt8.ofNat c.toNat
+
+open AlgoVerif.C03 in
+/-- the witness of the seeded change C03-n3 on the Model of `grammar.Productions` (built with the options of its
+call site): 17 heads whose default string hashes share the home slot 5 modulo 31 are added; the 16th `Add` grows
+the table to 67 slots, every `Add` returns and every head is found. -/
+example : (match Productions.new with
+    | .ok p0 =>
+      match ([28, 30, 57, 75, 128, 160, 180, 202, 270, 281, 291, 338, 363, 382, 418, 426, 443].map ntName).foldl
+          (fun (acc : Outcome (Productions × Unit)) h =>
+            match acc with
+            | .ok (p, g) => Productions.add idShuffle3 p g h 0
+            | o => o) (.ok (p0, ())) with
+      | .ok (p, _) => (p.table.m, p.table.n, p.table.u,
+          (Productions.get p (ntName 443)).map (Option.map List.length), (Productions.get p (ntName 444)).map (Option.map List.length))
+      | _ => (0, 0, 0, .panic, .panic)
+    | _ => (0, 0, 0, .panic, .panic)) = (67, 17, 17, .ok (some 1), .ok none) := by
   decide
 
 end NonVacuity
